@@ -13,6 +13,22 @@
  *                                                                         -> "sb forbidden_int <k> forbidden_ptr <k> rounds <ROUNDS>"
  *   stress mp       ROUNDS    message passing: plain data, flag by p_atomic_int_set / _get
  *                                                                         -> "mp stale <k> rounds <ROUNDS>"
+ *   stress hcounter N ITERS   counter + a shadow holder count kept inside the critical section (relaxed atomics of the
+ *                             harness, no ordering): any overlap of two critical sections is seen, not only a lost update
+ *                                                                         -> "counter <v> expected <..> overlaps <k>"
+ *   stress twolocks N ITERS   two PSpinLocks A, B with one plain counter each; every thread: A alone, B alone, and B
+ *                             nested inside A (fixed order: no deadlock unless the two objects share their lock)
+ *                                                                         -> "twolocks a <v> b <v> expected <e> <e>"
+ *   stress mtwolocks N ITERS  the same on two PMutexes
+ *   stress mix      N ITERS   all read-modify-write operations mixed on ONE int word and ONE pointer-sized word:
+ *                             +1 by add / inc / compare-and-exchange loop (low bits; the pointer word starts just below
+ *                             2^32 and crosses it), xor of the top bit, or of the next, and-not of a third (never set)
+ *                                                                         -> "mix int <final> <expected> ptr <final> <expected>"
+ *   stress pticket  N ITERS   p_atomic_pointer_add (&p, 1) tickets starting below 2^32 (crossing it)
+ *                                                                         -> "ticket dup <d> final <v> expected <..>"
+ * Every worker loop also stops at a deadline (environment STRESS_MAX_MS, default 20000 ms): on a loaded machine an
+ * oversubscribed spin lock can take minutes for a fixed iteration count; the expected values are computed from the
+ * iterations actually completed, so the oracles are exact either way.
  * Exit status 0; oracles are evaluated by tools/props/c0{1,4}.py (and ThreadSanitizer's report). */
 #include <patomic.h>
 #include <pmutex.h>
@@ -22,6 +38,8 @@
 #include <stdlib.h>
 #include <string.h>
 #include <pthread.h>
+#include <stdint.h>
+#include <time.h>
 
 extern void p_mem_init (void);
 extern void p_atomic_thread_init (void);
@@ -35,17 +53,78 @@ static unsigned char *seen;
 static long dup_count, true_count;
 static pthread_mutex_t agg = PTHREAD_MUTEX_INITIALIZER;
 static pthread_barrier_t bar;
+static long done_iters;			/* iterations completed by all workers (under agg) */
+static double deadline;
+
+static double now_s (void) { struct timespec ts; clock_gettime (CLOCK_MONOTONIC, &ts); return (double) ts.tv_sec + ts.tv_nsec / 1e9; }
+/* checked every 64 iterations */
+#define EXPIRED(i) ((((i) & 63) == 63) && now_s () > deadline)
+static void add_done (long k) { pthread_mutex_lock (&agg); done_iters += k; pthread_mutex_unlock (&agg); }
 
 static void *w_counter (void *a) {
 	int i;
 	(void) a;
 	pthread_barrier_wait (&bar);
-	for (i = 0; i < ITERS; i++) {
+	for (i = 0; i < ITERS && !EXPIRED (i); i++) {
 		if (i % 3 == 2) { while (p_spinlock_trylock (SL) == FALSE) ; }
 		else p_spinlock_lock (SL);
 		counter++;
 		p_spinlock_unlock (SL);
 	}
+	add_done (i);
+	return NULL;
+}
+
+static int holders;			/* shadow holder count: harness atomics, relaxed */
+static long overlaps;			/* plain, inside the critical section */
+
+static void *w_hcounter (void *a) {
+	int i;
+	volatile int k;
+	(void) a;
+	pthread_barrier_wait (&bar);
+	for (i = 0; i < ITERS && !EXPIRED (i); i++) {
+		if (i % 3 == 2) { while (p_spinlock_trylock (SL) == FALSE) ; }
+		else p_spinlock_lock (SL);
+		if (__atomic_fetch_add (&holders, 1, __ATOMIC_RELAXED) != 0) __atomic_fetch_add (&overlaps, 1, __ATOMIC_RELAXED);
+		counter++;
+		for (k = 0; k < 8; k++) ;
+		__atomic_fetch_sub (&holders, 1, __ATOMIC_RELAXED);
+		p_spinlock_unlock (SL);
+	}
+	add_done (i);
+	return NULL;
+}
+
+static PSpinLock *SA, *SB;
+static PMutex *MA, *MB;
+static long ca, cb;			/* plain: ca under A, cb under B */
+
+static void *w_twolocks (void *a) {
+	int i;
+	(void) a;
+	pthread_barrier_wait (&bar);
+	for (i = 0; i < ITERS && !EXPIRED (i); i++) {
+		p_spinlock_lock (SA); ca++; p_spinlock_unlock (SA);
+		if (i % 2) p_spinlock_lock (SB); else { while (p_spinlock_trylock (SB) == FALSE) ; }
+		cb++; p_spinlock_unlock (SB);
+		p_spinlock_lock (SA); ca++; p_spinlock_lock (SB); cb++; p_spinlock_unlock (SB); p_spinlock_unlock (SA);
+	}
+	add_done (i);
+	return NULL;
+}
+
+static void *w_mtwolocks (void *a) {
+	int i;
+	(void) a;
+	pthread_barrier_wait (&bar);
+	for (i = 0; i < ITERS && !EXPIRED (i); i++) {
+		p_mutex_lock (MA); ca++; p_mutex_unlock (MA);
+		if (i % 2) p_mutex_lock (MB); else { while (p_mutex_trylock (MB) == FALSE) ; }
+		cb++; p_mutex_unlock (MB);
+		p_mutex_lock (MA); ca++; p_mutex_lock (MB); cb++; p_mutex_unlock (MB); p_mutex_unlock (MA);
+	}
+	add_done (i);
 	return NULL;
 }
 
@@ -53,12 +132,13 @@ static void *w_mcounter (void *a) {
 	int i;
 	(void) a;
 	pthread_barrier_wait (&bar);
-	for (i = 0; i < ITERS; i++) {
+	for (i = 0; i < ITERS && !EXPIRED (i); i++) {
 		if (i % 3 == 2) { while (p_mutex_trylock (MX) == FALSE) ; }
 		else p_mutex_lock (MX);
 		counter++;
 		p_mutex_unlock (MX);
 	}
+	add_done (i);
 	return NULL;
 }
 
@@ -68,15 +148,74 @@ static void *w_ticket (void *a) {
 	unsigned *got = malloc (sizeof (unsigned) * (size_t) ITERS);
 	(void) a;
 	pthread_barrier_wait (&bar);
-	for (i = 0; i < ITERS; i++) got[i] = (unsigned) p_atomic_int_add (&X, 1);
+	int n;
+	for (i = 0; i < ITERS && !EXPIRED (i); i++) got[i] = (unsigned) p_atomic_int_add (&X, 1);
+	n = i;
 	pthread_mutex_lock (&agg);
-	for (i = 0; i < ITERS; i++) {
+	for (i = 0; i < n; i++) {
 		if (got[i] >= (unsigned) (N * ITERS) || seen[got[i]]) d++;
 		else seen[got[i]] = 1;
 	}
 	dup_count += d;
+	done_iters += n;
 	pthread_mutex_unlock (&agg);
 	free (got);
+	return NULL;
+}
+
+/* pointer-sized tickets: the word starts PT_BACK below 2^32 and crosses it */
+static volatile psize PX;
+#define PT_BASE ((psize) 0x100000000ULL)
+static psize pt_start;
+
+static void *w_pticket (void *a) {
+	int i, n;
+	long d = 0;
+	psize *got = malloc (sizeof (psize) * (size_t) ITERS);
+	(void) a;
+	pthread_barrier_wait (&bar);
+	for (i = 0; i < ITERS && !EXPIRED (i); i++) got[i] = (psize) p_atomic_pointer_add (&PX, 1);
+	n = i;
+	pthread_mutex_lock (&agg);
+	for (i = 0; i < n; i++) {
+		psize k = got[i] - pt_start;
+		if (k >= (psize) N * (psize) ITERS || seen[k]) d++;
+		else seen[k] = 1;
+	}
+	dup_count += d;
+	done_iters += n;
+	pthread_mutex_unlock (&agg);
+	free (got);
+	return NULL;
+}
+
+/* all operations mixed on one word */
+static volatile pint MI;
+static volatile psize MP;
+static long mix_incs, mix_xors, mix_ors;
+
+static void *w_mix (void *a) {
+	int i;
+	long incs = 0, xors = 0, ors = 0;
+	int me = (int) (intptr_t) a;
+	pthread_barrier_wait (&bar);
+	for (i = 0; i < ITERS && !EXPIRED (i); i++) {
+		switch ((i + me) % 6) {
+		case 0: p_atomic_int_add (&MI, 1); p_atomic_pointer_add (&MP, 1); incs++; break;
+		case 1: p_atomic_int_inc (&MI); p_atomic_pointer_add (&MP, 1); incs++; break;
+		case 2: {
+			pint o; psize q;
+			do { o = p_atomic_int_get (&MI); } while (!p_atomic_int_compare_and_exchange (&MI, o, o + 1));
+			do { q = (psize) p_atomic_pointer_get (&MP); } while (!p_atomic_pointer_compare_and_exchange (&MP, (ppointer) q, (ppointer) (q + 1)));
+			incs++; break; }
+		case 3: p_atomic_int_xor ((volatile puint *) &MI, 0x80000000u); p_atomic_pointer_xor (&MP, (psize) 1 << 63); xors++; break;
+		case 4: p_atomic_int_or ((volatile puint *) &MI, 0x40000000u); p_atomic_pointer_or (&MP, (psize) 1 << 62); ors++; break;
+		default: p_atomic_int_and ((volatile puint *) &MI, ~0x20000000u); p_atomic_pointer_and (&MP, ~((psize) 1 << 61)); break;
+		}
+	}
+	pthread_mutex_lock (&agg);
+	mix_incs += incs; mix_xors += xors; mix_ors += ors;
+	pthread_mutex_unlock (&agg);
 	return NULL;
 }
 
@@ -85,9 +224,10 @@ static void *w_dectest (void *a) {
 	long t = 0;
 	(void) a;
 	pthread_barrier_wait (&bar);
-	for (i = 0; i < ITERS; i++) if (p_atomic_int_dec_and_test (&X)) t++;
+	for (i = 0; i < ITERS && !EXPIRED (i); i++) if (p_atomic_int_dec_and_test (&X)) t++;
 	pthread_mutex_lock (&agg);
 	true_count += t;
+	done_iters += i;
 	pthread_mutex_unlock (&agg);
 	return NULL;
 }
@@ -96,10 +236,11 @@ static void *w_casinc (void *a) {
 	int i;
 	(void) a;
 	pthread_barrier_wait (&bar);
-	for (i = 0; i < ITERS; i++) {
+	for (i = 0; i < ITERS && !EXPIRED (i); i++) {
 		pint old;
 		do { old = p_atomic_int_get (&X); } while (!p_atomic_int_compare_and_exchange (&X, old, old + 1));
 	}
+	add_done (i);
 	return NULL;
 }
 
@@ -112,7 +253,9 @@ static void *mp_consumer (void *a) {
 	int r;
 	(void) a;
 	for (r = 1; r <= ITERS; r++) {
-		while (p_atomic_int_get (&flag) != r) ;
+		pint f;
+		while ((f = p_atomic_int_get (&flag)) != r && f != -1) ;
+		if (f == -1) break;			/* the producer stopped at the deadline */
 		if (data != r) stale++;
 		p_atomic_int_set (&ack, r);
 	}
@@ -124,15 +267,21 @@ typedef struct { volatile pint x; char p1[60]; volatile pint y; char p2[60]; ppo
 static SBCell *sbc;
 static int *sb_ra, *sb_rb, *sb_pa, *sb_pb;
 static volatile int sb_gate[2];
-static void sb_sync (int me, int r) {      /* harness-level rendezvous every 32 rounds keeps the two threads overlapping */
-	if (r % 32) return;
+static volatile int sb_stop, sb_rounds;
+/* harness-level rendezvous every 32 rounds keeps the two threads overlapping; thread 0 decides there whether the
+   deadline has passed (published before its gate value, so both stop at the same round).  Returns 1 = stop. */
+static int sb_sync (int me, int r) {
+	if (r % 32) return 0;
+	if (me == 0 && now_s () > deadline) { sb_rounds = r; __atomic_store_n (&sb_stop, 1, __ATOMIC_SEQ_CST); }
 	__atomic_store_n (&sb_gate[me], r + 1, __ATOMIC_SEQ_CST);
+	if (me == 0 && sb_stop) return 1;
 	while (__atomic_load_n (&sb_gate[1 - me], __ATOMIC_SEQ_CST) < r + 1) ;
+	return __atomic_load_n (&sb_stop, __ATOMIC_SEQ_CST);
 }
 static void *sb_a (void *a) {
 	int r; (void) a;
 	for (r = 0; r < ITERS; r++) {
-		sb_sync (0, r);
+		if (sb_sync (0, r)) break;
 		p_atomic_int_set (&sbc[r].x, 1);
 		sb_ra[r] = p_atomic_int_get (&sbc[r].y);
 		p_atomic_pointer_set (&sbc[r].px, (ppointer) &sbc[r]);
@@ -143,7 +292,7 @@ static void *sb_a (void *a) {
 static void *sb_b (void *a) {
 	int r; (void) a;
 	for (r = 0; r < ITERS; r++) {
-		sb_sync (1, r);
+		if (sb_sync (1, r)) break;
 		p_atomic_int_set (&sbc[r].y, 1);
 		sb_rb[r] = p_atomic_int_get (&sbc[r].x);
 		p_atomic_pointer_set (&sbc[r].py, (ppointer) &sbc[r]);
@@ -156,7 +305,7 @@ static void run_threads (void *(*f) (void *)) {
 	pthread_t *th = malloc (sizeof (pthread_t) * (size_t) N);
 	int i;
 	pthread_barrier_init (&bar, NULL, (unsigned) N);
-	for (i = 0; i < N; i++) pthread_create (&th[i], NULL, f, NULL);
+	for (i = 0; i < N; i++) pthread_create (&th[i], NULL, f, (void *) (intptr_t) i);
 	for (i = 0; i < N; i++) pthread_join (th[i], NULL);
 	free (th);
 }
@@ -169,25 +318,57 @@ int main (int argc, char **argv) {
 	ITERS = argc > 3 ? atoi (argv[3]) : N;
 	p_mem_init ();
 	p_atomic_thread_init ();
+	deadline = now_s () + (getenv ("STRESS_MAX_MS") ? atof (getenv ("STRESS_MAX_MS")) : 20000.0) / 1000.0;
 	if (!strcmp (mode, "counter")) {
 		SL = p_spinlock_new ();
 		run_threads (w_counter);
-		printf ("counter %ld expected %ld\n", counter, (long) N * ITERS);
+		printf ("counter %ld expected %ld\n", counter, done_iters);
+	} else if (!strcmp (mode, "hcounter")) {
+		SL = p_spinlock_new ();
+		run_threads (w_hcounter);
+		printf ("counter %ld expected %ld overlaps %ld\n", counter, done_iters, overlaps);
+	} else if (!strcmp (mode, "twolocks")) {
+		SA = p_spinlock_new (); SB = p_spinlock_new ();
+		run_threads (w_twolocks);
+		printf ("twolocks a %ld b %ld expected %ld %ld\n", ca, cb, 2 * done_iters, 2 * done_iters);
+	} else if (!strcmp (mode, "mtwolocks")) {
+		MA = p_mutex_new (); MB = p_mutex_new ();
+		run_threads (w_mtwolocks);
+		printf ("twolocks a %ld b %ld expected %ld %ld\n", ca, cb, 2 * done_iters, 2 * done_iters);
 	} else if (!strcmp (mode, "mcounter")) {
 		MX = p_mutex_new ();
 		run_threads (w_mcounter);
-		printf ("counter %ld expected %ld\n", counter, (long) N * ITERS);
+		printf ("counter %ld expected %ld\n", counter, done_iters);
 	} else if (!strcmp (mode, "ticket")) {
 		seen = calloc ((size_t) N * (size_t) ITERS, 1);
 		run_threads (w_ticket);
-		printf ("ticket dup %ld final %d expected %d\n", dup_count, (int) p_atomic_int_get (&X), N * ITERS);
+		printf ("ticket dup %ld final %d expected %ld\n", dup_count, (int) p_atomic_int_get (&X), done_iters);
+	} else if (!strcmp (mode, "pticket")) {
+		seen = calloc ((size_t) N * (size_t) ITERS, 1);
+		pt_start = PT_BASE - (psize) ((long) N * ITERS / 3);
+		p_atomic_pointer_set (&PX, (ppointer) pt_start);
+		run_threads (w_pticket);
+		printf ("ticket dup %ld final %llu expected %llu\n", dup_count, (unsigned long long) (psize) p_atomic_pointer_get (&PX),
+			(unsigned long long) (pt_start + (psize) done_iters));
+	} else if (!strcmp (mode, "mix")) {
+		psize p0 = PT_BASE - (psize) ((long) N * ITERS / 4), pe;
+		puint ie;
+		p_atomic_pointer_set (&MP, (ppointer) p0);
+		run_threads (w_mix);
+		ie = (puint) mix_incs | ((mix_xors & 1) ? 0x80000000u : 0) | (mix_ors ? 0x40000000u : 0);
+		pe = (p0 + (psize) mix_incs) | ((mix_xors & 1) ? (psize) 1 << 63 : 0) | (mix_ors ? (psize) 1 << 62 : 0);
+		printf ("mix int %u %u ptr %llu %llu\n", (puint) p_atomic_int_get (&MI), ie,
+			(unsigned long long) (psize) p_atomic_pointer_get (&MP), (unsigned long long) pe);
 	} else if (!strcmp (mode, "dectest")) {
+		long rest;
 		p_atomic_int_set (&X, N * ITERS);
 		run_threads (w_dectest);
+		/* the deadline may have stopped the workers early: the remaining decrements are done here */
+		for (rest = (long) N * ITERS - done_iters; rest > 0; rest--) if (p_atomic_int_dec_and_test (&X)) true_count++;
 		printf ("dectest true %ld final %d\n", true_count, (int) p_atomic_int_get (&X));
 	} else if (!strcmp (mode, "casinc")) {
 		run_threads (w_casinc);
-		printf ("casinc final %d expected %d\n", (int) p_atomic_int_get (&X), N * ITERS);
+		printf ("casinc final %d expected %ld\n", (int) p_atomic_int_get (&X), done_iters);
 	} else if (!strcmp (mode, "sb")) {
 		pthread_t ta, tb;
 		long fi = 0, fp = 0;
@@ -199,6 +380,7 @@ int main (int argc, char **argv) {
 		pthread_create (&ta, NULL, sb_a, NULL);
 		pthread_create (&tb, NULL, sb_b, NULL);
 		pthread_join (ta, NULL); pthread_join (tb, NULL);
+		if (sb_stop) ITERS = sb_rounds;		/* rounds both threads completed */
 		for (r = 0; r < ITERS; r++) { if (!sb_ra[r] && !sb_rb[r]) fi++; if (!sb_pa[r] && !sb_pb[r]) fp++; }
 		printf ("sb forbidden_int %ld forbidden_ptr %ld rounds %d\n", fi, fp, ITERS);
 	} else if (!strcmp (mode, "mp")) {
@@ -206,13 +388,14 @@ int main (int argc, char **argv) {
 		int r;
 		ITERS = N;
 		pthread_create (&c, NULL, mp_consumer, NULL);
-		for (r = 1; r <= ITERS; r++) {
+		for (r = 1; r <= ITERS && !EXPIRED (r); r++) {
 			data = r;
 			p_atomic_int_set (&flag, r);
 			while (p_atomic_int_get (&ack) != r) ;
 		}
+		if (r <= ITERS) p_atomic_int_set (&flag, -1);
 		pthread_join (c, NULL);
-		printf ("mp stale %ld rounds %d\n", stale, ITERS);
+		printf ("mp stale %ld rounds %d\n", stale, r - 1);
 	} else { fprintf (stderr, "unknown mode\n"); return 2; }
 	return 0;
 }
